@@ -44,6 +44,23 @@ class UserUpdateSegmentation(ActionGroup):
         node_to_select = None
         if self.tracks.segmentation is None:
             raise ValueError("Cannot update non-existing segmentation.")
+        # several entries may name the same old value (one entry per brush stroke): gather
+        # them, so that "all pixels of this node are gone" is decided once per node
+        groups: dict[int, list[tuple[np.ndarray, ...]]] = {}
+        for pixels, old_value in updated_pixels:
+            groups.setdefault(old_value, []).append(pixels)
+        updated_pixels = [
+            (
+                group[0]
+                if len(group) == 1
+                else tuple(
+                    np.concatenate([pixels[dim] for pixels in group])
+                    for dim in range(len(group[0]))
+                ),
+                old_value,
+            )
+            for old_value, group in groups.items()
+        ]
         if new_value != 0 and updated_pixels:
             # check this precondition before any sub-action is applied: rolling back
             # would recompute features from pixels the caller has not restored yet
